@@ -289,7 +289,7 @@ class SpecEval:
 
     def method(self, recv: V, name: str, args):
         k = recv.ty.kind
-        if k == "str":
+        if k == "str" or (k == "bytes" and name in ("startswith", "endswith")):
             return str_method(self.st, recv, name, args)
         if (is_dictlike(recv.ty) or k == "dictv") and name == "get":
             recv = self.deref(recv)
@@ -692,6 +692,40 @@ def _static_ref(se, a, kw):
     return V(ANY, static_ref(q))
 
 
+@specfun("pat_matches")
+def _pat_matches(se, a, kw):
+    return vbool(ops.UF("pat_matches", z3.IntSort(), z3.StringSort(), z3.IntSort(), z3.BoolSort())(a[0].t, unopt(a[1]).t, a[2].t))
+
+
+@specfun("pat_group1")
+def _pat_group1(se, a, kw):
+    args = (a[0].t, unopt(a[1]).t, a[2].t)
+    return vopt(STR, ops.UF("pat_group1_none", z3.IntSort(), z3.StringSort(), z3.IntSort(), z3.BoolSort())(*args),
+                V(STR, ops.UF("pat_group1", z3.IntSort(), z3.StringSort(), z3.IntSort(), z3.StringSort())(*args)))
+
+
+@specfun("bytes_decode")
+def _bytes_decode(se, a, kw):
+    return V(STR, ops.UF("bytes_decode_e", z3.StringSort(), z3.StringSort(), z3.StringSort(), z3.StringSort())(unopt(a[0]).t, unopt(a[1]).t, a[2].t))
+
+
+@specfun("codec_name")
+def _codec_name(se, a, kw):
+    f = ops.UF("codec_name", z3.StringSort(), z3.StringSort())
+    GLOBAL_AXIOMS["codec_name_utf8"] = f(z3.StringVal("utf-8")) == z3.StringVal("utf-8")
+    return V(STR, f(unopt(a[0]).t))
+
+
+@specfun("known_codec")
+def _known_codec(se, a, kw):
+    return vbool(ops.UF("known_codec", z3.StringSort(), z3.BoolSort())(unopt(a[0]).t))
+
+
+@specfun("decodable")
+def _decodable(se, a, kw):
+    return vbool(ops.UF("decodable", z3.StringSort(), z3.StringSort(), z3.BoolSort())(unopt(a[0]).t, unopt(a[1]).t))
+
+
 @specfun("match_group")
 def _match_group(se, a, kw):
     return vopt(STR, ops.UF("match_group_none", z3.IntSort(), z3.IntSort(), z3.BoolSort())(a[0].t, a[1].t),
@@ -774,6 +808,22 @@ def _attrgetter_of(se, a, kw):
 def _g_str(se, a, kw):
     q = z3.simplify(a[0].t).as_string()
     return V(STR, z3.Const("G_" + q, z3.StringSort()))
+
+
+@specfun("G_bytes")
+def _g_bytes(se, a, kw):
+    q = z3.simplify(a[0].t).as_string()
+    return V(BYTES, z3.Const("G_" + q, z3.StringSort()))
+
+
+@specfun("is_str")
+def _is_str(se, a, kw):
+    return vbool(unopt(a[0]).ty.kind == "str")
+
+
+@specfun("is_bytes")
+def _is_bytes(se, a, kw):
+    return vbool(unopt(a[0]).ty.kind == "bytes")
 
 
 @specfun("box_pair")
